@@ -18,12 +18,14 @@ import MTVerif.Model.Render
 import MTVerif.Model.ModuleRender
 import MTVerif.Model.Imports
 import MTVerif.Model.EvalAnno
+import MTVerif.Model.TDStub
 namespace MT
 open Sexp
 
 structure DState where
   hier : List (ClassId × List ClassId × List ClassId) := []   -- class, direct bases, mro
   ranks : List (ClassId × Nat) := []                          -- class, position by (module, qualname)
+  unchk : List ClassId := []                                  -- classes `issubclass` refuses (non-runtime Protocols)
   clsNames : List (ClassId × String × String) := []
   funcNames : List (FuncId × String × String) := []
   envTab : List ((String × String) × Obj) := []
@@ -70,6 +72,7 @@ def DState.H (st : DState) : Hier where
   mro c := match st.hier.lookup c with | some (_, m) => m | none => [c, objectC]
   bases c := match st.hier.lookup c with | some (b, _) => b | none => [objectC]
   rank c := match st.ranks.lookup c with | some r => r | none => c
+  unchk c := st.unchk.contains c
 
 def DState.sub (st : DState) (c d : ClassId) : Bool := st.H.sub c d
 
@@ -77,11 +80,18 @@ def hierOf (xs : List Sexp) : Except String (List (ClassId × List ClassId × Li
   xs.mapM (fun x => match x with
     | .list [c, .list bs, .list ms] => do .ok (← natOf c, ← bs.mapM natOf, ← ms.mapM natOf)
     | .list [c, .list bs, .list ms, _] => do .ok (← natOf c, ← bs.mapM natOf, ← ms.mapM natOf)
+    | .list [c, .list bs, .list ms, _, _] => do .ok (← natOf c, ← bs.mapM natOf, ← ms.mapM natOf)
     | _ => .error "bad hier entry")
 
 def ranksOf (xs : List Sexp) : Except String (List (ClassId × Nat)) :=
   xs.filterMapM (fun x => match x with
     | .list [c, _, _, r] => do .ok (some (← natOf c, ← natOf r))
+    | .list [c, _, _, r, _] => do .ok (some (← natOf c, ← natOf r))
+    | _ => .ok none)
+
+def unchkOf (xs : List Sexp) : Except String (List ClassId) :=
+  xs.filterMapM (fun x => match x with
+    | .list [c, _, _, _, .atom "true"] => do .ok (some (← natOf c))
     | _ => .ok none)
 
 def rwOf : Sexp → Except String RW
@@ -132,7 +142,7 @@ def handle (st : DState) (req : Sexp) : Except String (DState × Sexp) :=
   match req with
   | .list (.atom "hier" :: xs) => do
       let h ← hierOf xs
-      .ok ({ st with hier := h, ranks := ← ranksOf xs }, .atom "ok")
+      .ok ({ st with hier := h, ranks := ← ranksOf xs, unchk := ← unchkOf xs }, .atom "ok")
   | .list [.atom "getType", k, v] => do
       .ok (st, sexpOfTy (getType (← natOf k) (← valOf v)))
   | .list (.atom "shrink" :: k :: ts) => do
@@ -267,6 +277,36 @@ def handle (st : DState) (req : Sexp) : Except String (DState × Sexp) :=
       let e := Render.stripE mods (Render.renderE st.names ty)
       .ok (st, .list [sexpOfBool (Render.namesOk ns st.names mods ty), .str (Render.printE e),
                       (match Render.evalE ns e with | some t' => sexpOfTy t' | none => .atom "none")])
+  | .list [.atom "denoteT", own, .list sig, idx, .list full] => do
+      -- C11 with generated classes: the stub of one function whose annotated positions are `sig` = ((hint type) ...); the
+      -- position `idx` rendered (TypedDicts replaced by forward references), stripped, evaluated with the stub's classes
+      let ownM ← strOf own
+      let hts ← sig.mapM (fun x => match x with
+        | .list [h, t] => do .ok (← strOf h, ← tyOf t)
+        | _ => .error "bad (hint type) pair")
+      let i ← natOf idx
+      let nm := st.names
+      let sm := Render.fieldStrip nm
+      let anyTD := hts.any (fun ht => ht.2.hasTD)
+      -- `full`: the annotations as they stand in the signature (a generator's return annotation wraps its components)
+      let fullTys ← full.mapM tyOf
+      let allImps := ((fullTys.flatMap (Render.importsOf nm)) ++
+                      (if anyTD then [("mypy_extensions", "TypedDict")] else [])).eraseDups
+      let mods := Render.stripListOf allImps
+      let imps := (allImps.filter (fun mq => mq.1 != ownM)).mergeSort (fun a b => a.1 < b.1 || (a.1 == b.1 && a.2 ≤ b.2))
+      let ns : Render.NS := { imports := imps, own := ownM,
+                              inv := fun m parts => (st.clsNames.find? (fun cmq => cmq.2.1 == m && Render.dotted cmq.2.2 == parts)).map (·.1) }
+      let env := Render.stubOrder (hts.flatMap (fun ht => Render.classesT nm sm ht.1 ht.2))
+      match hts[i]? with
+      | none => .error "denoteT: index out of range"
+      | some (hint, ty) =>
+        let e := Render.stripE mods (Render.renderT nm hint ty)
+        .ok (st, .list [sexpOfBool (Render.namesOkT ns (Render.hasC env) nm sm mods ty),
+                        sexpOfBool (Render.classesInB env (Render.classesT nm sm hint ty)),
+                        .str (Render.printE e),
+                        (match Render.evalT ns env (Render.tdDepth ty) e with | some t' => sexpOfTy t' | none => .atom "none"),
+                        .list (env.map (fun d => .str (Render.classText d))),
+                        sexpOfBool (Render.rootClash imps)])
   | .list (.atom "rootClash" :: own :: ts) => do
       let ownM ← strOf own
       let imps := ((← ts.mapM tyOf).flatMap (Render.importsOf st.names)).filter (fun mq => mq.1 != ownM)
